@@ -55,6 +55,7 @@ type Set struct {
 	Features []string // feature names "mod:feat" the checker enables
 	Ops      []string // ill-formedness operators applied
 	Probes   map[string]bool
+	Touched  []*Module // the module an ill-formedness operator started from (it usually holds the damage)
 }
 
 type gen struct {
@@ -1149,6 +1150,7 @@ func (g *gen) breakSomething() {
 	}
 	mods := g.mods
 	m := mods[t.Draw(len(mods))]
+	g.set.Touched = append(g.set.Touched, m)
 	switch op {
 	case 0: // import cycle
 		if len(mods) >= 2 {
